@@ -95,6 +95,39 @@ def run_c03(res, tier, seed):
                     new_texts = list(texts)
                     new_texts[v] = render_tokens(vt)
                     cases.append((items, texts, new_texts, v, [lg]))
+    # long victims: one early edit in a body of 18-150 statements (or a type of as many variants) makes the parser report
+    # hundreds of errors inside the victim - the definitions behind it must still stand
+    for _ in range(40 if tier == "quick" else 600):
+        n = rng.choice([18, 25, 40, 80, 150])
+        if rng.random() < 0.7:
+            body = []
+            for i in range(n):
+                body += ["let", f"v{i}", "=", (f"v{i - 1}" if i else "x")]
+            toks = ["pub", "fn", "big", "(", "x", ")", "{"] + body + [f"v{n - 1}", "}"]
+            victim = ("N", "FUNCTION", [("T", t) for t in toks])
+        else:
+            toks = ["pub", "type", "Big", "{"]
+            for i in range(n):
+                toks += [f"V{i}", "(", "a", ":", "Int", ",", "Int", ")"]
+            toks += ["}"]
+            victim = ("N", "ADT", [("T", t) for t in toks])
+        others = build_file(rng, rng.randrange(2, 5))
+        k = rng.randrange(0, len(others))
+        items = others[:k] + [victim] + others[k:]
+        texts = [render_tokens(gen_gleam.tokens(it)) for it in items]
+        lo = toks.index("{") + 1
+        i = lo + rng.randrange(0, 9)
+        t = rng.choice(["type", "const", "import", "pub", "if", "fn", ")", "]", "->", "=", "opaque", "use", "é"])
+        op = rng.randrange(3)
+        if op == 0 or toks[i] in BRACES:
+            vt, lg = toks[:i] + [t] + toks[i:], f"insert {t!r} at {i}"
+        elif op == 1:
+            vt, lg = toks[:i] + toks[i + 1:], f"delete {toks[i]!r} at {i}"
+        else:
+            vt, lg = toks[:i] + [t] + toks[i + 1:], f"replace {toks[i]!r} by {t!r} at {i}"
+        new_texts = list(texts)
+        new_texts[k] = render_tokens(vt)
+        cases.append((items, texts, new_texts, k, [lg, f"long victim ({n} statements/variants)"]))
     reqs = []
     for (items, texts, new_texts, v, log) in cases:
         reqs.append("defs\t" + hexs("\n".join(texts)))
@@ -166,7 +199,7 @@ def run_c03(res, tier, seed):
                                            "original": "\n".join(texts)[:1500], "victim": v, "damage": log,
                                            "closing_brace_ancestors": aout[2 * j], "next_definition_ancestors": aout[2 * j + 1]})
     # model tie: the generated parser model agrees with parse_module on the damaged files
-    preqs = ["parse\t" + hexs("\n".join(c[2])) for c in cases[: (600 if tier == "quick" else 8000)]]
+    preqs = ["parse\t" + hexs("\n".join(c[2])) for c in cases[: (600 if tier == "quick" else 8000)] + cases[-(40 if tier == "quick" else 600):]]
     io, mo = common.run_both_chunked(preqs)
     res.cov["evaluations"] += len(preqs)
     for rq, a, b in zip(preqs, io, mo):
